@@ -115,3 +115,176 @@ func VerifC30Expiry(h *verifrt.H) {
 	}
 	h.Cover("end")
 }
+
+// ---------- C07 ----------
+
+type c07rec struct {
+	key                      string
+	created, modified, expir int64
+	val                      int64
+}
+
+func c07put(s Swamp, r c07rec) {
+	t := s.CreateTreasure(r.key)
+	g := t.StartTreasureGuard(true)
+	t.SetContentInt64(g, r.val)
+	if r.created != 0 {
+		t.SetCreatedAt(g, time.Unix(0, r.created).UTC())
+	}
+	if r.modified != 0 {
+		t.SetModifiedAt(g, time.Unix(0, r.modified).UTC())
+	}
+	if r.expir != 0 {
+		t.SetExpirationTime(g, time.Unix(0, r.expir).UTC())
+	}
+	t.Save(g)
+	t.ReleaseTreasureGuard(g)
+}
+
+func c07sym(h *verifrt.H, key string, bt BeaconType) c07rec {
+	// only the attribute the chosen index sorts by is symbolic (small signed range: ties and
+	// zero = "attribute absent" are likely; the solver still decides every relative order)
+	r := c07rec{key: key, created: 1, modified: 1, expir: 1, val: 1}
+	v := int64(h.IntRange("attr", -2, 3))
+	switch bt {
+	case BeaconTypeCreationTime:
+		r.created = v
+	case BeaconTypeUpdateTime:
+		r.modified = v
+	case BeaconTypeExpirationTime:
+		r.expir = v
+	default:
+		r.val = v
+	}
+	return r
+}
+
+func (r c07rec) attr(bt BeaconType) int64 {
+	switch bt {
+	case BeaconTypeCreationTime:
+		return r.created
+	case BeaconTypeUpdateTime:
+		return r.modified
+	case BeaconTypeExpirationTime:
+		return r.expir
+	}
+	return r.val
+}
+
+// VerifC07Index: records with symbolic sort attributes; the index is optionally built first
+// (hot maintenance) and then one mutation happens (insert / update that moves the sort value /
+// delete); an ordered read with symbolic offset, limit and time window must return exactly the
+// records carrying the attribute, sorted, restricted to [from, to), then paged (ties in any order).
+func VerifC07Index(h *verifrt.H) {
+	h.BackgroundLowPriority(true)
+	s := vfMem(h, nil)
+	types := []BeaconType{BeaconTypeKey, BeaconTypeCreationTime, BeaconTypeUpdateTime, BeaconTypeExpirationTime, BeaconTypeValueInt64}
+	bt := types[h.Choose("indexType", len(types))]
+	order := IndexOrderAsc
+	if h.Choose("descending", 2) == 1 {
+		order = IndexOrderDesc
+	}
+	recs := []c07rec{c07sym(h, "a", bt), c07sym(h, "b", bt)}
+	for _, r := range recs {
+		c07put(s, r)
+	}
+	if h.Choose("indexBuiltFirst", 2) == 1 {
+		s.GetTreasuresByBeacon(bt, order, 0, 0, nil, nil)
+	}
+	switch h.Choose("mutation", h.Param("mutations", 4)) {
+	case 1:
+		r := c07sym(h, "c", bt)
+		c07put(s, r)
+		recs = append(recs, r)
+	case 2: // update that may move the record's sort value
+		r := c07sym(h, "a", bt)
+		t, err := s.GetTreasure("a")
+		h.Assert(err == nil, "update-get")
+		g := t.StartTreasureGuard(true)
+		t.SetContentInt64(g, r.val)
+		t.SetCreatedAt(g, time.Unix(0, r.created).UTC())
+		t.SetModifiedAt(g, time.Unix(0, r.modified).UTC())
+		t.SetExpirationTime(g, time.Unix(0, r.expir).UTC())
+		t.Save(g)
+		t.ReleaseTreasureGuard(g)
+		recs[0] = r
+	case 3:
+		h.Assert(s.DeleteTreasure("b", false) == nil, "delete")
+		recs = recs[:1]
+	}
+	from := h.IntRange("from", 0, h.Param("maxPage", 3))
+	limit := h.IntRange("limit", 0, h.Param("maxPage", 3))
+	var fromT, toT *time.Time
+	timeBased := bt == BeaconTypeCreationTime || bt == BeaconTypeUpdateTime || bt == BeaconTypeExpirationTime
+	lo, hi := int64(0), int64(0)
+	if timeBased && h.Choose("fromTime", 2) == 1 {
+		lo = int64(h.IntRange("fromTimeValue", -2, 3))
+		t := time.Unix(0, lo).UTC()
+		fromT = &t
+	}
+	if timeBased && h.Choose("toTime", 2) == 1 {
+		hi = int64(h.IntRange("toTimeValue", -2, 3))
+		t := time.Unix(0, hi).UTC()
+		toT = &t
+	}
+	got, err := s.GetTreasuresByBeacon(bt, order, int32(from), int32(limit), fromT, toT)
+	h.Assert(err == nil, "index-read-ok")
+	// reference: filter, sort, page
+	var sel []c07rec
+	for _, r := range recs {
+		a := r.attr(bt)
+		if timeBased && (a == 0 || fromT != nil && a < lo || toT != nil && a >= hi) {
+			continue
+		}
+		sel = append(sel, r)
+	}
+	less := func(x, y c07rec) bool {
+		if bt == BeaconTypeKey {
+			if order == IndexOrderAsc {
+				return x.key < y.key
+			}
+			return x.key > y.key
+		}
+		if order == IndexOrderAsc {
+			return x.attr(bt) < y.attr(bt)
+		}
+		return x.attr(bt) > y.attr(bt)
+	}
+	for i := 1; i < len(sel); i++ {
+		for j := i; j > 0 && less(sel[j], sel[j-1]); j-- {
+			sel[j], sel[j-1] = sel[j-1], sel[j]
+		}
+	}
+	if from < len(sel) {
+		sel = sel[from:]
+	} else {
+		sel = nil
+	}
+	if limit != 0 && limit < len(sel) {
+		sel = sel[:limit]
+	}
+	h.Assert(len(got) == len(sel), "index-page-size")
+	if len(got) == len(sel) {
+		for i, t := range got {
+			var a int64
+			switch bt {
+			case BeaconTypeKey:
+				h.Assert(t.GetKey() == sel[i].key, "index-page-sorted-by-key")
+				continue
+			case BeaconTypeCreationTime:
+				a = t.GetCreatedAt()
+			case BeaconTypeUpdateTime:
+				a = t.GetModifiedAt()
+			case BeaconTypeExpirationTime:
+				a = t.GetExpirationTime()
+			default:
+				a, _ = t.GetContentInt64()
+			}
+			h.Assert(a == sel[i].attr(bt), "index-page-sorted-and-ranged")
+			for j := 0; j < i; j++ {
+				h.Assert(got[j].GetKey() != t.GetKey(), "index-page-no-duplicates")
+			}
+		}
+	}
+	h.Cover("end")
+}
